@@ -35,6 +35,7 @@ type Obligation struct {
 	Outputs  map[string]string
 	QuerySz  int
 	Inlined  string // name of inlined callee the obligation originates from
+	Hints      []*Term // instantiation hints: integer parameters of the function
 	ModelTerms []*Term
 	ModelNames []string
 	ReplayTemplate string
@@ -71,13 +72,14 @@ type Engine struct {
 	Trace      bool
 	cur        *exec // function activation being executed
 	freshRefs  map[*Term]bool
+	monCache   map[string]*monInfo
 }
 
 func NewEngine(p *Program) *Engine {
 	return &Engine{P: p, C: NewCtx(), heapSorts: map[string]*Sort{}, fnIDs: map[string]int{}, strLits: map[string]*Term{},
 		strLitVals: map[*Term]string{}, subAx: map[string]bool{}, typeTags: map[string]int{}, tagTypes: map[int]types.Type{},
 		Unverified: map[string]bool{}, ExternsUsed: map[string]bool{}, Inlines: map[string]bool{}, oblSeq: map[string]int{},
-		specCache: map[*Clause]*boundExpr{}, specFnCache: map[string]*specFn{}, MaxInline: 4, freshRefs: map[*Term]bool{}}
+		specCache: map[*Clause]*boundExpr{}, specFnCache: map[string]*specFn{}, MaxInline: 4, freshRefs: map[*Term]bool{}, monCache: map[string]*monInfo{}}
 }
 
 func (e *Engine) typeTag(t types.Type) *Term {
@@ -122,6 +124,8 @@ type exec struct {
 	ghostEnv map[types.Object]Value
 	frame    *frameInfo
 	pos      token.Pos // position of the instruction being executed
+	lockedOwners []lockedOwner
+	ghostCells map[string]*Cell
 }
 
 type retRec struct {
@@ -326,6 +330,34 @@ func (e *Engine) selector(pa, pb *Term) *Term {
 		return pa
 	}
 	return e.C.And(rest...)
+}
+
+// orFactored is pa \/ pb with the conjuncts common to both factored out, so
+// that path conditions stay conjunctions with a shared prefix (quantified
+// assumptions remain top-level conjuncts, selectors stay small).
+func (e *Engine) orFactored(pa, pb *Term) *Term {
+	ca, cb := conjuncts(pa), conjuncts(pb)
+	inb := map[*Term]bool{}
+	for _, t := range cb {
+		inb[t] = true
+	}
+	var common, ra, rb []*Term
+	ina := map[*Term]bool{}
+	for _, t := range ca {
+		if inb[t] {
+			common = append(common, t)
+			ina[t] = true
+		} else {
+			ra = append(ra, t)
+		}
+	}
+	for _, t := range cb {
+		if !ina[t] {
+			rb = append(rb, t)
+		}
+	}
+	c := e.C
+	return c.And(append(common, c.Or(c.And(ra...), c.And(rb...)))...)
 }
 
 func conjuncts(t *Term) []*Term {
